@@ -42,4 +42,6 @@ cd /verif
 out=$(VERIF_REPO="$WT" ./run "$ID" quick 2>&1); rc=$?
 viol=$(echo "$out" | grep -c '^VIOLATION')
 sigs=$(echo "$out" | grep '^  violated:' | sed 's/^  violated: //' | cut -c1-200 | python3 -c 'import sys,json; print(json.dumps([l.strip() for l in sys.stdin]))')
-echo "{\"seed\":\"$(basename $SEED)\",\"id\":\"$ID\",\"build\":\"$build\",\"pkg_tests_with_change\":\"$tests\",\"demo_with_change\":\"$demo_with\",\"demo_without_change\":\"$demo_without\",\"check_exit\":$rc,\"violation_lines\":$viol,\"signatures\":$sigs}"
+RES="{\"seed\":\"$(basename $SEED)\",\"id\":\"$ID\",\"build\":\"$build\",\"pkg_tests_with_change\":\"$tests\",\"demo_with_change\":\"$demo_with\",\"demo_without_change\":\"$demo_without\",\"check_exit\":$rc,\"violation_lines\":$viol,\"signatures\":$sigs}"
+echo "$RES"
+if [ "${SAVE:-}" = 1 ]; then D="/verif/seeded/$(basename "$SEED")"; mkdir -p "$D"; cp "$SEED"/patch.diff "$SEED"/meta.json "$D"/ 2>/dev/null; cp "$SEED"/*_test.go "$D"/ 2>/dev/null; echo "$RES" | python3 -m json.tool > "$D/confirm.json"; fi
